@@ -85,7 +85,8 @@ def run(ctx: Ctx):
     ctx.attempt(rules.rule_state_lineage, ctx, "D2", rules.step_path_funcs(repo), "DU.state-lineage", lambda fn, c: rules.may_reach(repo, fn, c, ops))
     # a transition that reports success without writing the new activity leaves the vehicle in the old one after its exit
     # already cleared the record: the request is offered again while the vehicle is still travelling to it
-    ctx.attempt(rules.rule_enter_installs, ctx, "D2")
+    assign_holders = {sc.name for sc in states.state_classes(repo) if rules.released_kinds(sc, {"assign"})}
+    ctx.attempt(rules.rule_enter_installs, ctx, "D2", "TS.enter-installs", assign_holders)
     # D3 dispatcher filter
     dispatcher_filter(ctx)
     ctx.floor("TS.pairing", 13)
@@ -139,7 +140,22 @@ def fold_helper(ctx: Ctx):
     ctx.require(n >= 1, "modify_vehicle_assignment._modify: no updating path found")
 
 
-def dispatcher_filter(ctx: Ctx):
+def _subselection_of(e: ast.AST) -> ast.AST:
+    """Peel what can only drop or reorder elements: X[a:b], tuple/list/sorted/reversed(X), filter(f, X)."""
+    while True:
+        if isinstance(e, ast.Subscript) and isinstance(e.slice, ast.Slice):
+            e = e.value
+        elif isinstance(e, ast.Call) and flow.dump(e.func) in ("tuple", "list", "sorted", "reversed") and e.args:
+            e = e.args[0]
+        elif isinstance(e, ast.Call) and flow.dump(e.func) == "filter" and len(e.args) == 2:
+            e = e.args[1]
+        else:
+            return e
+
+
+def dispatcher_filter(ctx: Ctx, exact: bool = False):
+    """exact=True (C12): the targets are exactly the filtered waiting requests. exact=False (C17): any sub-selection of
+    them will do — what matters is that nothing outside the filter is offered."""
     repo = ctx.repo
     fn = repo.func(DISP, "Dispatcher.generate_instructions._solve_assignment._valid_request")
     r = fn.params[0]
@@ -158,11 +174,13 @@ def dispatcher_filter(ctx: Ctx):
     for p in flow.paths(solve.node):
         for ev in p.calls("find_assignment"):
             found = True
-            a = ev.call.args
+            a = list(ev.call.args)
+            if len(a) >= 2 and not exact:
+                a[1] = _subselection_of(a[1])
             good = len(a) >= 2 and isinstance(a[1], ast.Call) and any(
                 k.arg == "filter_function" and flow.dump(k.value) == "_valid_request" for k in a[1].keywords) and \
                 flow.dump(a[1].func).endswith(".get_requests")
-            ctx.check(good, "D3", "GD.NODISP", "find_assignment's targets are get_requests(filter_function=_valid_request)", solve, ev.raw,
+            ctx.check(good, "D3", "GD.NODISP", "find_assignment's targets are " + ("" if exact else "(a sub-selection of) ") + "get_requests(filter_function=_valid_request)", solve, ev.raw,
                       why_bad=f"targets = {flow.dump(a[1])[:160] if len(a) > 1 else '?'}", construct="_solve_assignment:targets-filter")
         if found:
             break
